@@ -97,6 +97,7 @@ class RustDefs:
         self.enums = {}     # 'module::Name' -> EnumDef
         self.structs = {}
         self.aliases = {}   # 'module::Name' -> (generics, target type)
+        self.uses = {}      # module -> ([glob-imported modules], {Name: 'module::Name'})
         for dp, dn, fn in os.walk(src_root):
             for f in fn:
                 if f.endswith('.rs'):
@@ -117,6 +118,18 @@ class RustDefs:
     def _scan(self, path, root):
         src = strip_comments(open(path).read())
         mod = module_of(path, root)
+        globs, named = self.uses.setdefault(mod, ([], {}))
+        for m in re.finditer(r'(?m)^(?:pub(?:\([^)]*\))?\s+)?use\s+crate::([A-Za-z0-9_:]+?)(?:::(\*|\{[^}]*\}))?;', src):
+            path, tail = m.group(1), m.group(2)
+            if tail == '*':
+                globs.append(path)
+            elif tail:
+                for n in tail[1:-1].split(','):
+                    n = n.strip().split(' as ')[0].strip()
+                    if n and n != 'self':
+                        named[n.split('::')[-1]] = path + '::' + n
+            else:
+                named[path.split('::')[-1]] = path
         # module-level aliases only (associated types inside impl blocks are indented)
         for m in re.finditer(r'(?m)^(?:pub(?:\([^)]*\))?\s+)?type\s+([A-Za-z_][A-Za-z0-9_]*)\s*(<[^>=]*>)?\s*=\s*([^;]+);', src):
             gens = [g.strip() for g in m.group(2)[1:-1].split(',')] if m.group(2) else []
@@ -187,9 +200,17 @@ class RustDefs:
         """Resolve a (possibly abbreviated) type path by longest suffix match; an unqualified name is
         looked up in `prefer_module` first (the module whose definition mentions it)."""
         if self.prefer_module and '::' not in re.sub(r'<.*$', '', path).strip():
-            k = self.prefer_module + '::' + re.sub(r'<.*$', '', path).strip()
+            bare = re.sub(r'<.*$', '', path).strip()
+            k = self.prefer_module + '::' + bare
             if k in table:
                 return table[k]
+            # names the module imports (`use crate::alpha::common::*;`, `use crate::alpha::error::Error;`)
+            globs, named = self.uses.get(self.prefer_module, ([], {}))
+            if named.get(bare) in table:
+                return table[named[bare]]
+            hits = [g + '::' + bare for g in globs if (g + '::' + bare) in table]
+            if len(hits) == 1:
+                return table[hits[0]]
         path = re.sub(r'<.*$', '', path).strip()
         segs = path.split('::')
         cands = [k for k in table if k.split('::')[-1] == segs[-1]]
